@@ -187,7 +187,13 @@ def _run_obligation(args):
             del sc.NL_LOG[:]
             sc._NL_DONE[0] = 0
             sc.NL_UF[0] = False
+            sc.NL_SIGN[0] = False
+            sc.MOD_MODE[0] = "functional"
             sc.DIV_WITNESS[0] = False
+            symnp.TRIG_RANGE[0] = False
+            symnp.TRIG_MONO[0] = False
+            symnp.SQRT_MODE[0] = "witness"
+            symnp.UNIQUE_MODE[0] = "relational"
             inp = ob.setup(ctx)
             ob.run(ctx, inp)
         unsupported = None
